@@ -437,7 +437,7 @@ func corsStorm(r *rep.Report, kind string, perG int) {
 func TestC17(t *testing.T) {
 	r := rep.New(t, "C17")
 	defer r.Flush()
-	r.Rule("PRNG servers: cookie option {none, default, named+path, all attributes} x CORS policy {none, '*', fixed string, list, list with regexp, regexp, true, false} x credentials x preflightContinue x success status x methods/headers as string or list; 1-3 sessions each with a PRNG history of polls, posts and preflights from allowed, disallowed, look-alike and absent origins (JSONP in a fifth); oracle: Set-Cookie exactly on the handshake response with value == session id and the configured attributes, initial_headers once per session, headers once per response, CORS headers against a reference policy model, preflight status/no session; distinct = option/history signature")
+	r.Rule("PRNG servers: cookie option {none, default, named+path, all attributes} x CORS policy {none, '*', fixed string, list, list with regexp, regexp, true, false} x credentials x preflightContinue x success status x methods/headers as string or list; 1-3 sessions each with a PRNG history of polls, posts and preflights from allowed, disallowed, look-alike and absent origins (JSONP in a fifth), six overlapping handshakes per cookie-configured server, and a real-time storm of concurrent preflights from different origins per reflecting policy; oracle: Set-Cookie exactly on the handshake response with value == session id and the configured attributes, initial_headers once per session, headers once per response, CORS headers against a reference policy model, preflight status/no session; distinct = option/history signature")
 	r.Assume("'responses of the session' are the responses produced by the session's transport (handshake, poll, data); protocol-error replies and preflight answers are written without the transport's header path")
 	r.Assume("for a fixed-string origin policy Vary: Origin is accepted either way (the value does not depend on the request)")
 	if r.Lane == 0 {
